@@ -41,13 +41,14 @@ Fixpoint inner (news : list svc) (s1 : svc) (olds : list svc) (r : report) : rep
   match olds with
   | [] => r
   | s2 :: rest =>
-    let r1 := if negb (mem_name (sv_name s2) news) && negb (mem_prefix (sv_prefix s2) news)
-                 && negb (existsb (Z.eqb (sv_name s2)) (r_deleted r))
-              then mkR (r_new r) (r_deleted r ++ [sv_name s2]) (r_renamed r) (r_changed r) else r in
     let r2 := if (sv_name s1 =? sv_name s2) && negb (sv_body s1 =? sv_body s2)
-              then mkR (r_new r1) (r_deleted r1) (r_renamed r1) (r_changed r1 ++ [sv_name s1]) else r1 in
+              then mkR (r_new r) (r_deleted r) (r_renamed r) (r_changed r ++ [sv_name s1]) else r in
     inner news s1 rest r2
   end.
+
+(* the deleted services: a separate pass over the old layer (since the fix commit) *)
+Definition deleted_pass (news olds : list svc) : list Z :=
+  map sv_name (filter (fun s2 => negb (mem_name (sv_name s2) news) && negb (mem_prefix (sv_prefix s2) news)) olds).
 
 Definition outer_step (news olds : list svc) (r : report) (s1 : svc) : report :=
   let r1 := if negb (mem_svc s1 olds) && negb (mem_prefix (sv_prefix s1) olds)
@@ -64,7 +65,8 @@ Definition outer_step (news olds : list svc) (r : report) (s1 : svc) : report :=
   inner news s1 olds r2.
 
 Definition compare_layers (news olds : list svc) : report :=
-  fold_left (outer_step news olds) news (mkR [] [] [] []).
+  let r := fold_left (outer_step news olds) news (mkR [] [] [] []) in
+  mkR (r_new r) (r_deleted r ++ deleted_pass news olds) (r_renamed r) (r_changed r).
 
 (* ---------- wire ---------- *)
 Definition nthZ (l : list tok) (n : nat) : Z := tz (tnth l n).
